@@ -382,10 +382,16 @@ func childMain() {
 	// a runaway recursion should die after 32 MB of stack, not after the default 1 GB (seconds per case)
 	debug.SetMaxStack(32 << 20)
 	// FindModule falls back to reading <name>.yang from the current directory: run where there is none
-	dir, err := os.MkdirTemp("", "corr-c11-")
-	if err == nil {
-		os.Chdir(dir)
-		defer os.RemoveAll(dir)
+	// the parent made this directory and removes it (a child is killed, its defers never run)
+	dir := ""
+	if os.Getenv("VERIF_CHILD_DIR") == "" {
+		var err error
+		if dir, err = os.MkdirTemp("", "corr-c11-"); err == nil {
+			os.Chdir(dir)
+			defer os.RemoveAll(dir)
+		} else {
+			dir = ""
+		}
 	}
 	in := bufio.NewReaderSize(os.Stdin, 1<<20)
 	out := bufio.NewWriter(os.Stdout)
@@ -436,6 +442,7 @@ type child struct {
 	in  *bufio.Writer
 	out *bufio.Reader
 	wc  interface{ Close() error }
+	dir string // the child's working directory, made and removed by the parent
 }
 
 func startChild() (*child, error) {
@@ -444,6 +451,13 @@ func startChild() (*child, error) {
 		return nil, err
 	}
 	cmd := exec.Command(self, "-child")
+	dir, derr := os.MkdirTemp("", "corr-c11-")
+	if derr == nil {
+		cmd.Dir = dir
+		cmd.Env = append(os.Environ(), "VERIF_CHILD_DIR="+dir)
+	} else {
+		dir = ""
+	}
 	wc, err := cmd.StdinPipe()
 	if err != nil {
 		return nil, err
@@ -456,13 +470,16 @@ func startChild() (*child, error) {
 	if err := cmd.Start(); err != nil {
 		return nil, err
 	}
-	return &child{cmd: cmd, in: bufio.NewWriterSize(wc, 1<<20), out: bufio.NewReaderSize(rc, 1<<20), wc: wc}, nil
+	return &child{cmd: cmd, in: bufio.NewWriterSize(wc, 1<<20), out: bufio.NewReaderSize(rc, 1<<20), wc: wc, dir: dir}, nil
 }
 
 func (c *child) stop() {
 	c.wc.Close()
 	c.cmd.Process.Kill()
 	c.cmd.Wait()
+	if c.dir != "" {
+		os.RemoveAll(c.dir)
+	}
 }
 
 // ask runs one case in the child; a dead or silent child yields "crash …" dumps.
